@@ -16,6 +16,7 @@ enum : unsigned { err_read_moved = 1, err_touch_destroyed = 2, err_double_destro
 inline int g_copies = 0;   // copy constructions + copy assignments
 inline int g_moves = 0;    // move constructions + move assignments
 inline unsigned g_errors = 0;
+inline int g_cont_calls = 0;   // calls of cont<VAL>/cont<RREF>/pred_val, one per element parameter
 inline int g_lvalue_calls = 0; // an operation on an rvalue argument handed its continuation an lvalue (xfc only)
 inline std::uint32_t g_val[max_id];
 
@@ -100,6 +101,7 @@ inline void reset()
   g_moves = 0;
   g_errors = 0;
   g_lvalue_calls = 0;
+  g_cont_calls = 0;
 }
 // counters start after the arguments have been built
 inline void begin_op()
@@ -145,6 +147,50 @@ struct xfc
   }
 };
 
+// ---- continuations that take their parameter BY VALUE (VAL) or by rvalue reference (RREF); FWD = xfc.
+// A by-value parameter is initialised by the library's call expression: from an rvalue it is a move, from an lvalue a
+// copy (of which the original must stay alive and untouched - observable when the operation keeps using its source).
+constexpr int FWD = 0, VAL = 1, RREF = 2;
+template <int F, int C = RV>
+struct cont;
+template <int C>
+struct cont<FWD, C> : xfc<C>
+{
+};
+template <int C>
+struct cont<VAL, C>
+{
+  template <int K>
+  elem_t<K> operator()(elem_t<K> x) const
+  {
+    ++g_cont_calls;
+    return x; // moves the parameter out
+  }
+};
+template <int C>
+struct cont<RREF, C>
+{
+  template <int K>
+  elem_t<K> operator()(elem_t<K> &&x) const
+  {
+    ++g_cont_calls;
+    return std::move(x);
+  }
+};
+// an arbitrary predicate (uninterpreted in the payload) taking the element by value and consuming its parameter
+template <int UF = 1>
+struct pred_val
+{
+  template <int K>
+  bool operator()(elem_t<K> x) const
+  {
+    ++g_cont_calls;
+    elem_t<K> const sink{std::move(x)};
+    return (verif_uf1(UF, sink.val) & 1U) != 0U;
+  }
+  static bool model(int const id) { return (verif_uf1(UF, g_val[id]) & 1U) != 0U; }
+};
+
 // ---- census of the result
 struct census
 {
@@ -163,13 +209,17 @@ struct census
 
 struct msgs
 {
-  char const *nocopy, *noerr, *count, *unchanged, *nomove, *fwd;
+  char const *nocopy, *noerr, *count, *unchanged, *nomove, *fwd, *byvalue;
 };
 #define C05_MSGS(op) \
   c05::msgs { op ": no element of an rvalue argument is copied", op ": no moved-from or destroyed element is read, results are alive and carry their value", \
               op ": every element appears in the result as often as documented (never twice)", op ": lvalue argument is unchanged (not moved from, not assigned)", \
               op ": nothing is moved or copied when no element is involved", \
-              op ": elements of an rvalue argument reach the continuation as rvalues (move-only types accepted)" }
+              op ": elements of an rvalue argument reach the continuation as rvalues (move-only types accepted)", \
+              op ": a by-value continuation costs exactly one copy per call on an lvalue and none where the library passes an rvalue" }
+
+// copies a VAL continuation may cost: `lvalue_calls` of its calls were made with an lvalue argument
+inline void expect_copies(int const lvalue_calls, msgs const &m) { verif_assert(g_copies == lvalue_calls, m.byvalue); }
 
 // an argument element passed as lvalue must be exactly as before
 template <int K>
